@@ -254,22 +254,11 @@ func TestVerifC21Store(t *testing.T) {
 		t.Fatalf("bootstrap: %v", err)
 	}
 	defer s.Close(true)
-	if _, err := s.WaitForLeader(10 * time.Second); err != nil {
+	if _, err := s.WaitForLeader(60 * time.Second); err != nil {
 		t.Fatalf("leader: %v", err)
 	}
-	exec := func(tx bool, stmts ...string) error {
-		res, _, err := s.Execute(context.Background(), executeRequestFromStrings(stmts, false, tx))
-		if err != nil {
-			return err
-		}
-		for _, r := range res {
-			if e := r.GetError(); e != "" {
-				return fmt.Errorf("%s", e)
-			}
-		}
-		return nil
-	}
-	if err := exec(false,
+	exec := func(tx bool, stmts ...string) error { return c21Execute(s, stmts, tx) }
+	if err := exec(true,
 		"CREATE TABLE a (seq INTEGER PRIMARY KEY, v INTEGER)",
 		"CREATE TABLE acct (id INTEGER PRIMARY KEY, bal INTEGER)",
 		"CREATE TABLE b (seq INTEGER PRIMARY KEY, v INTEGER)",
@@ -486,14 +475,13 @@ func TestVerifC21Gate(t *testing.T) {
 		t.Fatalf("bootstrap: %v", err)
 	}
 	defer s.Close(true)
-	if _, err := s.WaitForLeader(10 * time.Second); err != nil {
+	if _, err := s.WaitForLeader(60 * time.Second); err != nil {
 		t.Fatalf("leader: %v", err)
 	}
 	n := int64(0)
 	exec := func(stmt string) {
-		res, _, err := s.Execute(context.Background(), executeRequestFromStrings([]string{stmt}, false, false))
-		if err != nil || res[0].GetError() != "" {
-			t.Fatalf("exec: %v %v", err, res)
+		if err := c21Execute(s, []string{stmt}, false); err != nil {
+			t.Fatalf("exec: %v", err)
 		}
 	}
 	// the schema entry is the model's first write: table g exists from transaction 1 on
